@@ -430,6 +430,11 @@ func (u *clientUpdater) updateService(ctx context.Context, service ServiceDefini
 		return fmt.Errorf("failed to wipe on testSeed change (service=%s, testSeed=%s): %w", service.ID, seed, err)
 	}
 	for _, presentation := range presentations {
+		if presentation.ID == nil {
+			// can't be stored or referred to, a server should not have accepted it
+			log.Logger().Warnf("Discovery Service returned a presentation without ID, skipping (service=%s)", service.ID)
+			continue
+		}
 		// Check if the presentation already exists
 		credentialSubjectID, err := credential.PresentationSigner(presentation)
 		if err != nil {
